@@ -16,6 +16,7 @@ func init() {
 			"N12 every construction (composite literal) of a module struct sets the pointer fields that the code dereferences without a nil test, directly or through the by-value structs it contains; " +
 			"N10 the module call graph is acyclic and every for loop is a range or a counted loop. " +
 			"(E2-N12-map) every literal of a set type allocates the maps its methods write through (a write into a nil map panics). " +
+			"(E2-N13) a position returned by slices / strings / bytes Index* is used as an index or bound only on a path that decided a comparison of it (the -1 of `not found`); today no production code uses such a position as an index, the rule is armed for new code. " +
 			"NOT decided: panics inside cli-runtime, yaml, apimachinery conversion or np-guard/models on other preconditions; resource exhaustion; termination of library code."
 		rules.NilGuards(p, r)
 		rules.NilAuxiliary(p, r)
@@ -23,6 +24,7 @@ func init() {
 		rules.PeerBeforePorts(p, r, "E2-N3-pre")
 		rules.AdminSelectionExcludesIPs(p, r, "E2-N3-sel")
 		rules.MapFieldsAllocated(p, r, "E2-N12-map")
+		rules.SearchResultIndexGuarded(p, r, "E2-N13")
 		r.Floor("E2-N1", 18)
 		r.Floor("E2-N3", 12)
 		r.Floor("E2-N7", 10)
